@@ -217,6 +217,9 @@ def opt_val(pt, t):
     return dt_sel('val_' + name, t, sort_of(pt.args[0]), 'some_' + name)
 
 
+NAMED_TUPLE_TYPES = {}      # qualified name -> (tuple PT, field names)
+
+
 class CoerceError(Exception):
     pass
 
@@ -414,6 +417,8 @@ def parse_type(node, classes=None):
         head = node.value.id
         sl = node.slice
         elts = sl.elts if isinstance(sl, ast.Tuple) else [sl]
+        if head == 'NT':
+            return NAMED_TUPLE_TYPES[elts[0].value][0]
         if head in ('Fn', 'Cls'):
             return PT('fnref' if head == 'Fn' else 'clsref', elts[0].value)
         if head == 'Obj':
